@@ -589,7 +589,7 @@ class C14:
         shape = digest_of([doc_abs.shape(), [self._op_abstract(o) for o in plan['ops']], sorted(f['kind'] for f in plan['fs'].get('faults', [])),
                            len(plan.get('damage', []))])
         return {'digest': log.digest(), 'events': log.seq, 'faults': faults, 'probes': probes, 'shape': shape,
-                'nontrivial': compared >= 3 and dumps_compared >= 1, 'config': plan['config'], 'violations': viol,
+                'nontrivial': compared >= 3 and dumps_compared >= 1, 'config': plan['config'], 'hash_sensitive': any('interrupt' in o for o in plan['ops']), 'violations': viol,
                 'extra': {'sum': {'ops_compared_with_fresh': compared}}}
 
     @staticmethod
